@@ -196,7 +196,9 @@ prop("C13", level="other",
 prop("C14", level="other",
      explanation="proved: DemeTree.__init__ seeds both global generators with the configured seed before the root deme is built (call-site "
                  "obligation on ghost generator state). bounded: two runs with the same seed from different prior generator states produce "
-                 "identical trees over the scenario battery. An effect scan lists every random / time / uuid source reachable from pyhms.",
+                 "identical trees over the scenario battery, in the same process and in two interpreter processes with different PYTHONHASHSEED. "
+                 "A static scan lists every random / numpy.random / time / uuid / hash() / id() / set source in pyhms/** and compares it with "
+                 "the list recorded on the unchanged tree (a new source makes the check undecided).",
      level_text="effect discipline partly proved, run equality bounded", level_note=BOUNDED_NOTE,
      assumptions=["NumPy / SciPy / cma are deterministic functions of their arguments and the global generator state"],
      undecided_subclauses=["run equality itself", "independence of PYTHONHASHSEED (no set / hash iteration found by the scan)"],
@@ -255,6 +257,21 @@ def run_bounded(pid, tier, seed):
 def run_side_checks(pid, tier, seed):
     """bounded stand-ins, labelled as such in the evidence: the scenario battery on the real code (CPython)"""
     out = []
+    if pid == "C14":
+        from . import effects
+        now, base = effects.scan(), effects.baseline()
+        rec = dict(name="effects::C14", kind="static scan of nondeterminism sources in pyhms/** (random, numpy.random, time, datetime, uuid, os "
+                   "entropy, hash(), id(), set constructions, qmc / cma constructors), compared with the list recorded on the unchanged tree "
+                   "(baseline/effects.json); a new source makes the check undecided, never a violation",
+                   bound="syntactic: call sites by resolved import alias, keyed by file / enclosing function / callee", status="ok", known=[],
+                   summary=dict(cases=len(now), nontrivial=len(now), samples=now[:8]))
+        if base is None:
+            rec.update(status="undecided", detail="baseline/effects.json is missing")
+        else:
+            new = sorted(set(now) - set(base))
+            if new:
+                rec.update(status="undecided", detail="nondeterminism source(s) not present on the unchanged tree: " + "; ".join(new[:6]))
+        out.append(rec)
     if pid in BOUNDED and os.environ.get("PYVC_NO_BATTERY") != "1":
         res = run_bounded(pid, tier, seed)
         rec = dict(name=f"bounded::{pid}", kind="bounded: the real functions on exhaustively enumerated small inputs / an adversarial "
